@@ -105,12 +105,15 @@ def contains (s needle : String) : Bool := isInfixL needle.toList s.toList
 def startsWithS (s p : String) : Bool := isPrefixL p.toList s.toList
 def endsWithS (s p : String) : Bool := isPrefixL p.toList.reverse s.toList.reverse
 /-- the source-text predicates of `DecoratedFunction`, with the needles the translator read from the library -/
+def headerOf (source : String) : List Char := beforeFirstL decoratorSplit.toList source.toList
+/-- the text a predicate searches: the decorator lines only (repaired predicates) or the whole source -/
+def scopeOf (header : Bool) (source : String) : List Char := if header then headerOf source else source.toList
 def flagsOfSource (name source : String) : SrcFlags :=
-  { wantsArgs := contains source argsNeedle
-    isStatic := contains source staticNeedle
-    isSetter := contains source (setterPrefix ++ name ++ setterSuffix)
-    isPedantic := pedanticNeedles.any (contains source)
-    numDecorators := countOccL decoratorMark.toList (beforeFirstL decoratorSplit.toList source.toList) }
+  { wantsArgs := isInfixL argsNeedle.toList (scopeOf argsInHeader source)
+    isStatic := isInfixL staticNeedle.toList (scopeOf staticInHeader source)
+    isSetter := isInfixL (setterPrefix ++ name ++ setterSuffix).toList (scopeOf setterInHeader source)
+    isPedantic := pedanticNeedles.any (fun n => isInfixL n.toList (scopeOf pedanticInHeader source))
+    numDecorators := countOccL decoratorMark.toList (headerOf source) }
 def Fn.wantsArgs (f : Fn) : Bool := f.flags.wantsArgs
 def Fn.isStatic (f : Fn) : Bool := f.flags.isStatic
 def Fn.isSetter (f : Fn) : Bool := f.flags.isSetter
